@@ -1,5 +1,5 @@
 """Which rules and witnesses decide which property."""
-from . import shared_state, surface, entry, tables, dirflow, precision, gates, kbound, primw
+from . import shared_state, surface, entry, tables, dirflow, precision, gates, kbound, primw, symbound
 
 RULES = {
     "R-NOCELL": shared_state.r_nocell,
@@ -33,6 +33,7 @@ RULES = {
     "R-RAWFIXED": primw.r_rawfixed,
     "R-RELSITES": primw.r_relsites,
     "R-WHOCALLS": primw.r_whocalls,
+    "R-SYMBOUND": symbound.r_symbound,
 }
 
 PROPS = {
@@ -197,7 +198,7 @@ PROPS = {
     },
     "C03": {
         "level": "other",
-        "rules": ["R-ENTRY", "R-HELPER", "R-WHOCALLS", "R-KBOUND", "R-RAWFIXED", "R-PRIMW", "R-GATES", "R-RELSITES"],
+        "rules": ["R-ENTRY", "R-HELPER", "R-WHOCALLS", "R-KBOUND", "R-RAWFIXED", "R-PRIMW", "R-GATES", "R-SYMBOUND", "R-RELSITES"],
         "witnesses": [],
         "explanation": "Layered argument. (1) R-ENTRY/R-HELPER/R-WHOCALLS: the exported surface offers no data-buffer function other than the "
                        "369 process_* methods and the provided process(); each passes a validator that hands out chunks of exactly len() elements and "
@@ -208,11 +209,16 @@ PROPS = {
                        "the validators (N, 2N for the pair path, the constant scratch requirement), through DoubleBuf, array references and call "
                        "sites; R-RAWFIXED covers the raw escape-hatch intrinsics in those kernels; R-PRIMW shows each SIMD primitive moves exactly "
                        "the bytes its name promises and each array wrapper uses its own receiver and index. (3) R-GATES: no slice is re-typed without an "
-                       "established type identity and no instruction outside the detected feature set can execute. (4) R-RELSITES: every remaining "
-                       "unchecked access is inventoried as NOT DECIDED (its bound is a relation between run-time lengths); only the presence of the "
-                       "explicit panicking guards of the public-path transposes is checked for them.",
-        "decides": "in-bounds-ness of every access in all fixed-size kernels for all inputs/call shapes; validated entry; type and CPU-feature gates",
-        "does_not_decide": "accesses whose bound is a relation between run-time lengths (transposes, radix-N cross butterflies, AVX mixed-radix/Rader/Bluestein rows): inventoried in evidence as undecided, never silently passed",
+                       "established type identity and no instruction outside the detected feature set can execute. (4) R-SYMBOUND: in the run-time-length "
+                       "kernels whose safety follows from the function's own arithmetic (all AVX mixed-radix column butterflies and transposes: strided rows, "
+                       "full-vector main loop, partial-vector remainder) index + width <= receiver length is proved symbolically for every length -- "
+                       "polynomials over len(), quotient/remainder identities x = q*d + r, loop ranges and dominating path conditions, per element-type "
+                       "instantiation -- and an access that a concrete length drives out of its receiver is reported with that length as witness; "
+                       "(5) R-RELSITES: every remaining unchecked access is inventoried as NOT DECIDED (its bound is a relation between run-time lengths "
+                       "established in another function: constructor invariants, loop-carried strides); only the presence of the explicit panicking "
+                       "guards of the public-path transposes is checked for them.",
+        "decides": "in-bounds-ness of every access in all fixed-size kernels and in the AVX mixed-radix column/transposition kernels for all lengths/inputs/call shapes; validated entry; type and CPU-feature gates",
+        "does_not_decide": "accesses whose bound depends on an invariant established elsewhere (array_utils transposes, radix-N / radix-4 cross butterflies with loop-carried strides, AVX Rader/Bluestein rows whose twiddle-table length is fixed by the constructor): inventoried in evidence as undecided, never silently passed",
         "assumptions": ["x86_64 non-test code", "byte footprints of the core::arch intrinsics as tabulated in rules/primw.py"],
     },
 }
